@@ -1334,6 +1334,80 @@ example : ∃ c1 i rest,
     (∀ x ∈ (c1.cells.drop 0).take 4, x.seqs = []) := by
   refine ⟨_, _, _, rfl, rfl, rfl, rfl, by decide⟩
 
+/-! ## fresh-runner equivalence chained over a generation (no overflow in between) -/
+
+/-- greedy generation for the request owning slot `i`: Forward of `ins` (any free placement), the token for the
+    last position is sampled and fed back as the next input; `out` are the tokens sampled -/
+inductive Gen (vocab eosMod : Nat) (i : Nat) : Cache → List Tok → List Tok → Prop
+  | nil (c : Cache) (ins : List Tok) : Gen vocab eosMod i c ins []
+  | cons (c : Cache) (ins : List Tok) (loc : Nat) (t : Tok) (out : List Tok) :
+      ins ≠ [] → i < c.slots.length → (getSlot c.slots i).inUse = true →
+      (∀ x ∈ (c.cells.drop loc).take ins.length, x.seqs = []) →
+      ((getSlot c.slots i).inputs.length : Int) + ins.length < maxI32 →
+      t = nextTok vocab eosMod (visible (forward c i ins loc).cells i
+            (((getSlot c.slots i).inputs.length + ins.length - 1 : Nat) : Int)) →
+      Gen vocab eosMod i (forward c i ins loc) [t] out → Gen vocab eosMod i c ins (t :: out)
+
+/-- what the scripted model generates for an effective input, with no cache at all -/
+def genIdeal (vocab eosMod : Nat) : List Tok → Nat → List Tok
+  | _, 0 => []
+  | eff, n + 1 =>
+    let t := nextTok vocab eosMod (idealHistory eff ((eff.length - 1 : Nat) : Int))
+    t :: genIdeal vocab eosMod (eff ++ [t]) n
+
+theorem forward_record (c : Cache) (i : Nat) (hi : i < c.slots.length) (new : List Tok) (loc : Nat) :
+    (getSlot (forward c i new loc).slots i).inputs = (getSlot c.slots i).inputs ++ new := by
+  unfold forward
+  simp only [getSlot_setSlot_same _ _ _ hi]
+
+/-- **Generation from any coherent cache depends only on the effective input**: all tokens of a greedy
+    generation (each fed back through the cache) are those of `genIdeal (record ++ ins)`. -/
+theorem gen_ideal (vocab eosMod i : Nat) (c : Cache) (ins out : List Tok) (h : Gen vocab eosMod i c ins out) :
+    Coherent c → out = genIdeal vocab eosMod ((getSlot c.slots i).inputs ++ ins) out.length := by
+  induction h with
+  | nil c ins => intro _; rfl
+  | cons c ins loc t out hne hi hu hfree hpos ht _ ih =>
+    intro hc
+    have hexp := forward_exposes c hc i hi ins loc hu hfree hpos
+      (((getSlot c.slots i).inputs.length + ins.length - 1 : Nat) : Int)
+    have hlen : ((getSlot c.slots i).inputs ++ ins).length - 1 = (getSlot c.slots i).inputs.length + ins.length - 1 := by
+      simp only [List.length_append]
+    have ht' : t = nextTok vocab eosMod (idealHistory ((getSlot c.slots i).inputs ++ ins)
+        ((((getSlot c.slots i).inputs ++ ins).length - 1 : Nat) : Int)) := by
+      rw [ht, hlen]; exact nextTok_perm _ _ _ _ hexp
+    have hc' := coherent_forward c hc i hi ins loc hu hfree hpos
+    have := ih hc'
+    rw [forward_record c i hi] at this
+    simp only [List.length_cons, genIdeal]
+    rw [← ht', ← this]
+
+/-- **Fresh-runner equivalence over a whole generation.**  A request that resumes on a cached prefix (any
+    coherent cache: reuse, fork, earlier shifts) and a fresh runner whose slot record is empty and which processes
+    the whole effective input `record ++ rest` generate the same tokens, as long as neither overflows the context
+    in between (an overflow changes the effective input by a shift; the shift itself is covered by the invariant). -/
+theorem fresh_equiv_generation (vocab eosMod i : Nat) (c fresh : Cache) (rest out out' : List Tok)
+    (hc : Coherent c) (hf : Coherent fresh) (hempty : (getSlot fresh.slots i).inputs = [])
+    (hg : Gen vocab eosMod i c rest out)
+    (hg' : Gen vocab eosMod i fresh ((getSlot c.slots i).inputs ++ rest) out') (hlen : out.length = out'.length) :
+    out = out' := by
+  have h1 := gen_ideal vocab eosMod i c rest out hg hc
+  have h2 := gen_ideal vocab eosMod i fresh _ out' hg' hf
+  rw [hempty, List.nil_append, ← hlen] at h2
+  rw [h1, h2]
+
+/-- a new runner after `LoadCacheSlot [1, 2, 3]` -/
+def genDemoC : Cache :=
+  match loadCacheSlot (mkServer maxI32 2 8 4 true true 5 0).cache [1, 2, 3] 1 (fun _ _ _ => true) with
+  | .ok (c, _, _) => c
+  | .error _ => (mkServer maxI32 2 8 4 true true 5 0).cache
+
+/-- non-vacuity: the new runner generates two tokens through the cache (slot 0, prompt at cells 0–2, then cell 3) -/
+example : Gen 5 0 0 genDemoC [1, 2, 3] (genIdeal 5 0 [1, 2, 3] 2) := by
+  show Gen 5 0 0 genDemoC [1, 2, 3] [_, _]
+  refine .cons _ _ 0 _ _ (by decide) (by decide) (by decide) (by decide) (by decide) (by decide) ?_
+  refine .cons _ _ 3 _ _ (by decide) (by decide) (by decide) (by decide) (by decide) (by decide) ?_
+  exact .nil _ _
+
 /-! ## admission (`completion`'s slot-loading block) and whole histories -/
 
 /-- what a successful LoadCacheSlot does to the slots, for a coherent cache -/
